@@ -131,18 +131,19 @@ type ParserView struct {
 	Toks        []ScriptTok // instructions up to and including the top-level OP_RETURN (or all of them)
 	ReturnAt    int         // offset of the top-level OP_RETURN, -1 if none was reached
 	Truncated   bool        // a push before any top-level OP_RETURN runs past the end
-	Ambiguous   bool        // an OP_RETURN was met after an unbalanced ENDIF (depth went negative): "top level" is not decided here
+	Ambiguous   bool        // an OP_RETURN was met after an unbalanced ENDIF or an OP_VERIF/OP_VERNOTIF: "top level" is not decided here
 	HasOpReturn bool        // some instruction (at any depth) is OP_RETURN
 }
 
 // ParserTokenize walks the script the way the statement describes the opcode
-// parser: instructions are read one by one, IF/NOTIF/VERIF/VERNOTIF open a
-// block and ENDIF closes one; an OP_RETURN met outside every block ends
+// parser: instructions are read one by one, IF/NOTIF open a block and ENDIF
+// closes one; an OP_RETURN met outside every block ends
 // tokenisation and everything after it is an opaque blob.
 func ParserTokenize(script []byte) ParserView {
 	v := ParserView{ReturnAt: -1}
 	depth := 0
 	wentNegative := false
+	sawVer := false
 	pc := 0
 	for pc < len(script) {
 		t, good := GetOp(script, pc)
@@ -151,8 +152,12 @@ func ParserTokenize(script []byte) ParserView {
 			return v
 		}
 		switch t.Op {
-		case OpIf, OpNotIf, OpVerIf, OpVerNotIf:
+		case OpIf, OpNotIf:
 			depth++
+		case OpVerIf, OpVerNotIf:
+			// always-invalid opcodes: whether they open a block for the purpose of
+			// locating a top-level OP_RETURN is not something the statement decides
+			sawVer = true
 		case OpEndIf:
 			depth--
 			if depth < 0 {
@@ -160,7 +165,7 @@ func ParserTokenize(script []byte) ParserView {
 			}
 		case OpReturn:
 			v.HasOpReturn = true
-			if wentNegative {
+			if wentNegative || sawVer {
 				v.Ambiguous = true
 			}
 			if depth == 0 {
